@@ -51,20 +51,27 @@ def parsePairs : List String → Option (List (Float × Float))
 
 /-- Stand-in for `scipy.integrate.quad` on `[a, b]`: composite 8-point Gauss–Legendre on the pieces cut by the candidate
 break points `transition ± width` (the strength distribution's ±10 σ), panel width half of the shorter scale. -/
-def quadGL (transition width scale : Float) (f : Float → Float) (a b : Float) : Float := Id.run do
+def quadGL (transition width scale : Float) (fine : Bool) (f : Float → Float) (a b : Float) : Float := Id.run do
   let a := if a < -40.0 then -40.0 else a        -- the standard normal density is 0.0 in double precision beyond 38.6
   let b := if b > 40.0 then 40.0 else b
   if !(a < b) then return 0.0
   let clip := fun (x : Float) => if x < a then a else if x > b then b else x
-  let edges := [clip (transition - width), clip (transition + width), b]
+  -- inner zone: ±10 strength sd around the transition; shoulders: out to ±40 strength sd (beyond, the strength factor is
+  -- 0.0 or 1.0 in double precision).  `fine` (explicit limits: the window may lie entirely in a tail, where the
+  -- integrand falls by a factor e^35 per strength sd and a RELATIVE accuracy is wanted): panels of an eighth of the scale
+  let edges := [clip (transition - 4.0 * width), clip (transition - width), clip (transition + width),
+                clip (transition + 4.0 * width), b]
+  let base := if fine then 0.125 else 0.5
+  let ssc := if scale < 1.0 then scale else 1.0
   let mut s := 0.0
   let mut left := a
   for e in edges do
     let len := e - left
     if len > 0.0 then
       let inner := left ≥ transition - width && e ≤ transition + width
-      let sc := if inner && scale < 1.0 then scale else 1.0
-      let nf := Float.ceil (len / (0.5 * sc))
+      let shoulder := fine && left ≥ transition - 4.0 * width && e ≤ transition + 4.0 * width
+      let sc := if inner || shoulder then ssc else 1.0
+      let nf := Float.ceil (len / (base * sc))
       let nf := if nf < 1.0 then 1.0 else if nf > 20000.0 then 20000.0 else nf
       let n := nf.toUInt64.toNat
       s := glComposite f (len / nf) n left s
@@ -83,7 +90,7 @@ def handle : List String → Option String
     let lo ← parseLimit? lo
     let hi ← parseLimit? hi
     let loc := Float.log10 sm - Float.log10 lm
-    let quad := quadGL (loc / ls) (10.0 * ss / ls) (ss / ls)
+    let quad := quadGL (loc / ls) (10.0 * ss / ls) (ss / ls) (lo.isSome || hi.isSome)
     some (floatHex (pfNormLoadCode phi (fun x => phi (-x)) normPdf quad sm ss lm ls lo hi))
   | ["c15.phi", x] => do
     let x ← parseFloat? x
